@@ -16,14 +16,22 @@ import re
 from .core import VERIF_DIR
 
 PATH = os.path.join(VERIF_DIR, 'KNOWN_FINDINGS.txt')
+DIR = os.path.join(VERIF_DIR, 'known_findings.d')
+
+
+def _lines():
+    paths = [PATH] if os.path.exists(PATH) else []
+    if os.path.isdir(DIR):
+        paths += [os.path.join(DIR, f) for f in sorted(os.listdir(DIR)) if f.endswith('.txt')]
+    for p in paths:
+        with open(p) as f:
+            yield from f
 
 
 def load(prop_id=None):
     known, fixed = [], []
-    if not os.path.exists(PATH):
-        return known, fixed
-    with open(PATH) as f:
-        for raw in f:
+    if True:
+        for raw in _lines():
             line = raw.strip()
             if not line or line.startswith('#'):
                 continue
